@@ -1,6 +1,7 @@
 //! tvharness: runs the real tsrun code on case lines and prints canonical observations.
 use std::io::{self, BufRead, Write};
 
+mod budget;
 mod entry;
 mod heap;
 mod iso;
@@ -22,6 +23,7 @@ fn main() {
     let mut out = io::BufWriter::new(stdout.lock());
     let f: fn(&str) -> String = match model {
         "path" => path::line,
+        "budget" => budget::line,
         "entry" => entry::line,
         "roles" => entry::roles_line,
         "heap" => heap::line,
@@ -43,5 +45,6 @@ fn main() {
         let line = line.unwrap_or_default();
         let r = std::panic::catch_unwind(|| f(&line)).unwrap_or_else(|_| "PANIC".to_string());
         let _ = writeln!(out, "{}", r);
+        let _ = out.flush();
     }
 }
